@@ -326,6 +326,9 @@ class CursorTranslator(Translator):
             dst = self.dst_name(args[0], st)
             src = self.rvalue(args[1], st)
             cnt = self.as_int(self.rvalue(args[2], st))
+            if isinstance(src, Addr) and src.lv[0] == "path" and dst[0] == "path":
+                st["events"].append('("copy:%s<-%s", [%s])' % (dst[1], src.lv[1], cnt.s))      # object to object, both named
+                return lit(1)
             if not isinstance(src, Cur):
                 raise KError("memcpy from something that is not a cursor")
             st["events"].append('("rd", [%s, %s])' % (src.off.s, cnt.s))
